@@ -188,7 +188,7 @@ def stream_float(ctx, n, maxlen):
                     ctx.violation(f"{op}:float-cyclic", f"{op} on {xs} returned {v}, Kleene limit is {ref}", {"kind": "cfg-float", "op": op, "grammar": g, "xs": xs, "observed": str(v), "expected": ref})
 
 
-def search_rescaled(ctx, n, maxlen=3):
+def search_rescaled(ctx, n, maxlen=3, op="earley_rescaled", sr="float"):
     """failing-input search aimed at the agenda order of the rescaled parser: many small grammars with
     unary chains, only the rescaled entry point, floats vs the exact mirror of the model"""
     gs = []
@@ -202,7 +202,7 @@ def search_rescaled(ctx, n, maxlen=3):
         jobs = []
         for g in chunk:
             strs = [list(x) for x in M.strings(g["nT"], maxlen)][:20]
-            jobs.append({"g": g, "sr": "float", "queries": [{"op": "earley_rescaled", "xs": strs}]})
+            jobs.append({"g": g, "sr": sr, "queries": [{"op": op, "xs": strs}]})
             plans.append((g, strs))
         res = run_jobs(jobs)
         for (g, strs), r in zip(plans, res):
@@ -217,7 +217,7 @@ def search_rescaled(ctx, n, maxlen=3):
                 if ref is None:
                     continue
                 if not close_enough(v, ref, rel=1e-9):
-                    report(ctx, "float", g, "float", "earley_rescaled", xs, v, ref)
+                    report(ctx, "priority-search", g, sr, op, xs, v, ref)
                     return True
     return False
 
@@ -241,6 +241,8 @@ def run(ctx):
         ctx.obligation("coq-build(C02)", False, out[-3000:])
         if "PriorityRescaled" in out:
             search_rescaled(ctx, 4000)
+        if "PriorityProofs" in out:
+            search_rescaled(ctx, 4000, op="earley", sr="frac")
         ok2, _ = ctx.build(["proofs/CfgTrees.vo", "proofs/CfgChart.vo"])
         if not ok2:
             return
